@@ -65,7 +65,9 @@ class NS:
             return iter(list(self.items))
         if self.kind == "dict":
             return {it: 1 for it in self.items}
-        return set(self.items)
+        # a dict-keys view: like a set it has len() but no indexing (TypeError), yet iterates in insertion order, so the
+        # verdict on a malformed member does not depend on the hash seed
+        return {it: 1 for it in self.items}.keys()
 
 
 def mat(ss):
@@ -140,8 +142,7 @@ def pool(cfg):
          [("state", 0), ("povm", 0.0)], [("state", False), ("povm", 0)], [("state", 0), ("povm", np.int64(0))],
          # iterables that are not sequences: generator / dict / set with fine items, with a malformed item, too short
          NS("gen", [("state", 0), ("povm", 0)]), NS("dict", [("state", 0), ("povm", 0)]),
-         # (a set iterates in hash order: only sets whose items are all fine, so the verdict does not depend on that order)
-         NS("set", [("state", 0), ("povm", 0)] if ns > 0 and npv > 0 else [("state", 0)]),
+         NS("set", [("state", 0), ("povm", 0)]),
          NS("gen", [("state", 0), ("povm", npv)]), NS("dict", [("state", 0), ("gate", ng), ("povm", 0)]),
          NS("set", [("state", 0)]), NS("dict", [])]
     return p
@@ -209,6 +210,8 @@ def model_outcome(line):
         return ("item", int(t[1]), None if t[2] == "None" else int(t[2]))
     if t[0] == "order":
         return ("order", int(t[1]))
+    if t[0] == "escaped":
+        return ("other", t[1])
     return ("other", line)
 
 
@@ -379,7 +382,7 @@ def calc_cases(ctx):
                        tensor_product(generate_povm_from_name("x", c0), generate_povm_from_name("z", c1))],
               "gate": [tensor_product(generate_gate_from_gate_name("hadamard", c0), generate_gate_from_gate_name("x", c1))],
               "mprocess": [tensor_product(M(c0, "z-type1"), M(c1, "z-type1")), tensor_product(M(c0, "x-type1"), qobj.rand_mprocess(g2, c1, 3)[0])]}
-    ms2 = {"state": [1, 1], "povm": [6, 4], "gate": [1], "mprocess": [4, 6]}
+    ms2 = {"state": [1, 1], "povm": [6, 4], "gate": [1], "mprocess": [4, 6], "_multidim": True}
     n2 = {k: len(v) for k, v in lists2.items()}
     for s in accepted_schedules(4, n2):
         if len(s) < 4 or ctx.rng.random() < (0.25 if ctx.quick else 1.0):
@@ -612,6 +615,10 @@ def correspondence(ctx):
     for o, lists, ms, s in calc_cases(ctx):
         e = Experiment(schedules=[s], **{KW[k]: v for k, v in lists.items()})
         got = calc_outcome(e, 0, s)
+        if got[0] == "ok":
+            # the outcome shape of the composed distribution (calc_prob_dist itself returns the flat `.ps` only)
+            import quara.objects.operators as qop
+            got = ("ok", got[1], tuple(qop.compose_qoperations(*[lists[k][i] for k, i in reversed(s)]).shape))
         pend.append(("calc", (ms, s), got, drv.ask("calc", *[enc_objlist(ms[k]) for k in KINDS], enc_scheds([s]), "i:0")))
         ctx.case(("calc", repr(ms), repr(s)), sample={"op": "calc", "schedule": repr(s)})
         ctx.count("calc_prob_dist: " + ("ends in povm" if s[-1][0] == "povm" else "does not end in povm"))
@@ -669,8 +676,11 @@ def correspondence(ctx):
         elif op == "calc":
             t = line.split()
             if impl[0] == "ok":
-                ok = t[0] == "ok" and int(np.prod([int(x) for x in t[1].split(",")])) == len(impl[1])
-                impl = ("ok", len(impl[1]))
+                mshape = tuple(int(x) for x in t[1].split(",")) if t[0] == "ok" else None
+                ok = t[0] == "ok" and int(np.prod(mshape)) == len(impl[1])
+                if ok and len(impl) > 2 and not inp[0].get("_multidim"):
+                    ok = mshape == impl[2]      # exact outcome shape, in order (objects with one-dimensional outcome shapes)
+                impl = ("ok", len(impl[1]), impl[2] if len(impl) > 2 else None)
             elif impl[0] == "isNone":
                 s = inp[1]
                 ok = t[0] == "isNone" and impl[1].startswith("{}s[{}] is None".format(*s[int(t[1])]))
@@ -704,7 +714,10 @@ def oracle(ctx, volume=1):
     ctx.notes = ["Experiment._validate_type and the downstream parts of the tomography constructors (set_coeffs, is_valid_experiment) are not modelled; "
                  "the oracle constructs the real objects and executes every accepted schedule",
                  "former defects D13 (non-iterable schedule -> UnboundLocalError) and D14 (StandardQmpt accepted trailing items) are fixed in /repo "
-                 "(d4e3672, d963183); their oracle signatures stay live"]
+                 "(d4e3672, d963183); their oracle signatures stay live",
+                 "open finding D18: a schedule that is an iterable but not a sequence (generator, dict, set) with fine items escapes as raw TypeError / KeyError "
+                 "(model: Schedule.nonSequence; witness reject_is_schedule_error_nonSequence_fails; reject_item_or_order is scoped to sequences / non-iterables)",
+                 "accepted_executable proves executability and the outcome shape; non-negativity, normalisation and the Born rule are oracle-only"]
     # (a) constructor over the exhaustive single-schedule language, multi lists and random long schedules
     n = 0
     for cfg, s, _ in single_schedules(ctx):
